@@ -2,6 +2,7 @@ import LexgenModel.Proofs.Backtrack
 import LexgenModel.Proofs.MaxMunch
 import LexgenModel.Proofs.NextProtocol
 import LexgenModel.Proofs.CheckerSound
+import LexgenModel.Proofs.CompileLang
 /-!
 # C01 — Longest match with first-rule priority, recovered by backtracking
 
@@ -14,9 +15,10 @@ longer attempt died; and it reports an error only when there is no match at all.
 analysis computes are closed/sound for every graph. The language level — the accept list of
 the rule set's DFA after every word is exactly the rules whose regex denotes it, in rule order — is
 `C02_language` (Thompson + subset construction), and `simplify`/`add_dfa` preserve accept lists
-(`C02_simplify_preserves`, `Proofs/Simplify`). What is not yet a single theorem is the composition of
-these stages through `lexer()` into one end-to-end statement; the per-program comparison of the
-model's machine with the dumped machine (sound: `C02_comparison_sound`) covers that glue on every run.
+(`C02_simplify_preserves`, `Proofs/Simplify`); `C02_end_to_end` composes all stages of the model of
+`lexer()` into one statement about the final machine (restated here as `C01_accept_lists`). The
+per-program comparison of the model's machine with the dumped machine (sound:
+`C02_comparison_sound`) ties that model output to what the macro really produced, on every run.
 -/
 namespace Lexgen
 variable {σ τ ε : Type}
@@ -61,6 +63,17 @@ evaluated on the machine the macro actually produced, on every run. -/
 theorem C01_checker_establishes_hypotheses (cfg : Config σ τ ε) (nCtx : Nat)
     (h : (machineWF cfg.dfa cfg.entries nCtx).all = true) : MachineOK cfg :=
   machineOK_of_checker cfg nCtx h
+
+/-- First-rule priority at the language level, for the final machine of the model of `lexer()`: from
+the entry of every rule set, the accept list reached after any word lists exactly the rules denoting
+that word, earliest rule first — so the head of that list (what `Cand`/`selAt` pick when its right
+context holds) is the first listed rule matching the lexeme. -/
+theorem C01_accept_lists (items : LexerDef) (c : Compiled) (h : compileLexer items = .ok c)
+    (name : String) (rs : List RuleOrBinding) (b : Bindings) (k : Nat)
+    (hmem : (name, rs, b, k) ∈ scopedRuleSets items [] 0) :
+    ∃ e rules, (name, e) ∈ c.entries ∧ e < c.dfa.length ∧ coreRules rs b k = some rules ∧
+      ((∀ r ∈ rules, regexPiecesOK r.re) → RealisesRules c.dfa e rules) :=
+  compileLexer_lang items c h name rs b k hmem
 
 /-- non-vacuity: the machine of `'a' 'b'+ = 0, 'a' = 1` (states: 0 entry; 1 after `a`, accepting
 rule 1; 2 after `ab+`, accepting rule 0, backtrack flag set) satisfies the checker, hence `MachineOK`. -/
